@@ -130,6 +130,8 @@ fn gen_float(kind: &str, i: usize, rng: &mut Rng) -> Float {
             _ => rng.below(7) as Float - 3.0,
         },
         "frac" => (rng.below(2001) as Float - 1000.0) / 64.0,
+        // k/8 for k in -10..10 (beyond +-1 saturates), exact products with 32767
+        "eighths" => (rng.below(21) as Float - 10.0) / 8.0,
         _ => gen_int(kind, i, rng) as Float,
     }
 }
@@ -720,6 +722,7 @@ pub fn run_scenario(spec: &Value) -> Vec<Value> {
     };
     let with_inputs = spec["log_inputs"].as_bool().unwrap_or(false);
     // inputs are logged unscaled; the scale applies to outputs only
+    NUM_SCALE.with(|c| c.set(spec["in_scale"].as_f64().unwrap_or(1.0) as Float));
     let inputs_json = json!(rig.ins.iter().map(|p| p.nums().iter().map(|x| json!(x.unwrap_or(NONUM))).collect::<Vec<_>>()).collect::<Vec<_>>());
     NUM_SCALE.with(|c| c.set(spec["out_scale"].as_f64().unwrap_or(1.0) as Float));
     log.push(json!({"ev": "scenario", "block": spec["block"], "params": spec["params"], "mode": spec["mode"],
